@@ -40,6 +40,7 @@ VIOLATION_MSGS = [
     ('assertion failed', 'assertion'),
     ('unable to prove post-condition of closure', 'closure-postcondition'),
     ('unable to prove assertion', 'assertion'),
+    ('may fail to meet its declared type invariant', 'type-invariant'),
     ('possible arithmetic underflow/overflow', 'overflow'),
     ('possible division by zero', 'div-by-zero'),
     ('possible bit shift underflow/overflow', 'shift-overflow'),
